@@ -640,44 +640,62 @@ def run(rep, ctx):
             okarg = okarg and len(a) == 3 and cv(strip(a[2])) == base
         n1.check(okarg, key, short_loc(call.get("l")), "%s(%s%s) reads the text at the cursor" % (conv, cur["name"], ", &end, %d" % base if base else ", &end"),
                  "%s is applied to `%s`%s" % (conv, render(a0), "" if base is None else " with base `%s`" % render(a[2])))
-        # the end pointer: the variable whose address is the second argument, in Parse's own terms
-        a1 = strip(res(strip(a[1])))
+        # the end pointer: the variable whose address is the second argument, in the terms of the function that makes the call
+        # (Parse itself, or a helper Parse hands the cursor to by reference)
+        a1 = strip(a[1])
         endd = None
         if a1["k"] == "UnaryOperator" and a1.get("op") == "&":
             e_ = strip(kids(a1)[0])
             if e_["k"] == "DeclRefExpr":
                 endd = e_.get("declId")
-        asg = [n for n in x.walk() if n["k"] == "BinaryOperator" and n.get("op") == "=" and strip(kids(n)[0])["k"] == "DeclRefExpr"
-               and strip(kids(n)[0]).get("declId") == cur["declId"]]
+
+        def is_cursor(lhs):
+            """lhs (an expression of the calling function) denotes Parse's cursor"""
+            l_ = strip(res(strip(lhs)))
+            return l_["k"] == "DeclRefExpr" and l_.get("declId") == cur["declId"]
+        asg = [n for g_ in ({owner.id: owner, x.id: x}).values() for n in g_.walk() if n["k"] == "BinaryOperator" and n.get("op") == "=" and
+               (is_cursor(kids(n)[0]) if g_ is owner else (strip(kids(n)[0])["k"] == "DeclRefExpr" and strip(kids(n)[0]).get("declId") == cur["declId"]))]
         okasg = [n for n in asg if endd and strip(kids(n)[1])["k"] == "DeclRefExpr" and strip(kids(n)[1]).get("declId") == endd
-                 and x.cfg.dominates(anchor, n)]
-        direct = endd == cur["declId"]                 # strtod(s, const_cast<char**>(&s)): the cursor is the end pointer itself
+                 and any(n.get("i") == m_.get("i") for m_ in owner.walk()) and owner.cfg.dominates(call, n)]
+        direct = endd is not None and is_cursor(kids(a1)[0]) if a1["k"] == "UnaryOperator" else False     # strtod(s, const_cast<char**>(&s))
+        rets_o = list(owner.find(lambda n: n["k"] == "ReturnStmt"))
         rets = list(x.find(lambda n: n["k"] == "ReturnStmt"))
-        okc = direct and not asg or (len(asg) == len(okasg) and okasg and all(any(x.cfg.dominates(n, r) for n in okasg) for r in rets))
+        okc = direct and not asg or (len(asg) == len(okasg) and okasg and all(any(owner.cfg.dominates(n, r) for n in okasg) for r in rets_o)
+                                     and (owner is x or all(x.cfg.dominates(anchor, r) for r in rets)))
         n1.check(bool(okc), "%s-cursor" % ty, short_loc(call.get("l")), "before every return the cursor is set to the end pointer of the %s call" % conv,
                  "the cursor `%s` is not (only) set to the end pointer of the %s call before every return" % (cur["name"], conv))
-        okr = bool(rets)
-        why = ""
-        for r in rets:
-            e = strip(kids(r)[0])
+
+        def source(fn_, e):
+            """the expression a returned value comes from: casts and locals written exactly once (initialiser or one assignment) are looked through"""
+            e = strip(e)
             for _ in range(6):
                 if e["k"] in ("CXXStaticCastExpr", "CStyleCastExpr", "CXXFunctionalCastExpr"):
                     e = strip(kids(e)[-1])
                 elif e["k"] == "DeclRefExpr" and e.get("dk") == "Var":
-                    # a local initialised once with the call and never written again
-                    vd = [v_ for v_ in x.walk() if v_["k"] == "VarDecl" and v_.get("declId") == e.get("declId") and kids(v_)]
-                    wr = [n for n in x.walk() if n["k"] in ("BinaryOperator", "CompoundAssignOperator", "UnaryOperator")
+                    vd = [v_ for v_ in fn_.walk() if v_["k"] == "VarDecl" and v_.get("declId") == e.get("declId")]
+                    wr = [n for n in fn_.walk() if n["k"] in ("BinaryOperator", "CompoundAssignOperator", "UnaryOperator")
                           and (n.get("op") in ("=", "++", "--") or n["k"] == "CompoundAssignOperator")
                           and strip(kids(n)[0])["k"] == "DeclRefExpr" and strip(kids(n)[0]).get("declId") == e.get("declId")]
-                    adr = [n for n in x.walk() if n["k"] == "UnaryOperator" and n.get("op") == "&" and strip(kids(n)[0]).get("declId") == e.get("declId")]
-                    if len(vd) != 1 or wr or adr:
+                    adr = [n for n in fn_.walk() if n["k"] == "UnaryOperator" and n.get("op") == "&" and strip(kids(n)[0]).get("declId") == e.get("declId")]
+                    if len(vd) != 1 or adr:
                         break
-                    e = strip(kids(vd[0])[0])
+                    if kids(vd[0]) and not wr:
+                        e = strip(kids(vd[0])[0])
+                    elif not kids(vd[0]) and len(wr) == 1 and wr[0]["k"] == "BinaryOperator" and wr[0].get("op") == "=":
+                        e = strip(kids(wr[0])[1])
+                    else:
+                        break
                 else:
                     break
-            if not (e.get("i") == anchor.get("i") or (e["k"] == "CallExpr" and e.get("calleeId") == anchor.get("calleeId") and e.get("l") == anchor.get("l"))):
-                okr = False
-                why = "`return %s`" % render(kids(r)[0])
+            return e
+        okr = bool(rets) and bool(rets_o)
+        why = ""
+        for fn_, rr_, tgt in ((owner, rets_o, call),) + (((x, rets, anchor),) if owner is not x else ()):
+            for r in rr_:
+                e = source(fn_, kids(r)[0]) if kids(r) else {"k": "none"}
+                if e.get("i") != tgt.get("i"):
+                    okr = False
+                    why = "`return %s`" % (render(kids(r)[0]) if kids(r) else "")
         n1.check(okr, "%s-result" % ty, short_loc(call.get("l")), "the returned number is the value of the %s call" % conv,
                  "%s does not return the value of the %s call" % (why, conv))
 
